@@ -2471,6 +2471,20 @@ func (s *Store) waitForLinearizableRead(currReadTerm uint64, linearizableTimeout
 		lt = linearizableTimeout
 	}
 
+	// The FSM is only shown Command entries, so the entry at readIndex may be one
+	// it will never see (cluster-configuration change, barrier, Raft no-op). Wait
+	// for the newest Command entry at or below readIndex which the FSM has yet to
+	// apply. If there is none, there is nothing to wait for.
+	if fsmIdx := s.fsmIdx.Load(); readIndex > fsmIdx {
+		idx, err := s.lastCommandIndex(fsmIdx, readIndex)
+		if err == nil {
+			if idx == fsmIdx {
+				return nil
+			}
+			readIndex = idx
+		}
+	}
+
 	// Now, wait for it.
 	ch := s.fsmTarget.Subscribe(readIndex)
 	select {
@@ -2479,6 +2493,26 @@ func (s *Store) waitForLinearizableRead(currReadTerm uint64, linearizableTimeout
 	case <-time.After(lt):
 		return fmt.Errorf("index %d: %w", readIndex, ErrWaitForFSMTimeout)
 	}
+}
+
+// lastCommandIndex returns the index of the newest Command entry in the Raft log
+// in the range (lo, hi], or lo if there is no such entry. An entry which is no
+// longer in the log has been compacted into a snapshot, which means the FSM has
+// already processed it, and every entry before it.
+func (s *Store) lastCommandIndex(lo, hi uint64) (uint64, error) {
+	var l raft.Log
+	for i := hi; i > lo; i-- {
+		if err := s.raftLog.GetLog(i, &l); err != nil {
+			if err == raft.ErrLogNotFound {
+				return lo, nil
+			}
+			return 0, err
+		}
+		if l.Type == raft.LogCommand {
+			return i, nil
+		}
+	}
+	return lo, nil
 }
 
 func (s *Store) isStaleRead(freshness int64, strict bool) bool {
